@@ -166,7 +166,7 @@ func listP(name string, base int, vals ...val) param {
 // ---------------------------------------------------------------------------------------
 // Enumeration of the cases of one function
 
-const crossCap = 30000
+const crossCap = 40000
 
 func (f *fn) build(devBound int) {
 	if f.tuples != nil {
